@@ -481,6 +481,18 @@ pub fn build_model(rng: &mut Rng, rec: &mut Recorder) -> A2lFile {
     }
     a2l.project.long_identifier = text(rng);
     build_module_content(rng, &mut a2l.project.module[0], rec);
+    if rng.chance(1, 3) {
+        // an A2ML block built through the API, with and without white space around the text
+        let body = "block \"IF_DATA\" taggedunion {\n  \"API\" struct { uint; char[10]; };\n};";
+        let (lead, trail, label) = match rng.below(4) {
+            0 => ("\n", "\n", "a2ml.newline_both"),
+            1 => ("", "", "a2ml.no_white_space"),
+            2 => (" ", "\n    ", "a2ml.blank_and_indent"),
+            _ => ("\n  ", "", "a2ml.newline_front_only"),
+        };
+        rec.bump(label);
+        a2l.project.module[0].a2ml = Some(A2ml::new(format!("{lead}{body}{trail}")));
+    }
     if rng.chance(1, 4) {
         let mut m2 = Module::new(ident(rng), text(rng));
         build_module_content(rng, &mut m2, rec);
